@@ -55,7 +55,7 @@ class ListV:
                 return self.items[i]
             # symbolic index into a concrete list: ite chain over scalars
             if not self.items:
-                raise Unsupported("symbolic index into empty list")
+                return 0  # element of an empty list: never read under a true guard
             out = self.items[-1]
             for k in range(len(self.items) - 2, -1, -1):
                 out = _ite_any(cmp("==", i, k), self.items[k], out)
